@@ -23,12 +23,15 @@ package main
 //   the right identity.
 
 import (
+	"bytes"
 	"encoding/json"
 	"fmt"
+	"io"
 	"math/rand"
 	"net"
 	"net/http"
 	"net/http/httptest"
+	"net/url"
 	"sort"
 	"strconv"
 	"strings"
@@ -49,9 +52,29 @@ type c14Kind struct {
 	// GiveUp: the provider stalls and the CLIENT of the proxy gives up (request context cancelled) while it does;
 	// the client never sees that response (no cookie of it reaches the browser). Refresh and re-validation flows only.
 	GiveUp bool
+	// MustAt: positions at which the kind is a structural fault (Must for these positions only)
+	MustAt []string
+	// Sampled: a member of a large grid; the quick tier runs it in one of the flows that share a position
+	Sampled bool
 	// exactly one of:
 	Reply  func(pos string, cx *c14Ctx) *vfIdPReply
 	Mutate func(resp map[string]interface{})
+	Wire   *c14Wire // an incomplete HTTP message, produced by the front server of the check (instances reached through c14Front only)
+}
+
+func (k *c14Kind) must(pos string) bool {
+	if k == nil {
+		return false
+	}
+	if k.Must {
+		return true
+	}
+	for _, p := range k.MustAt {
+		if p == pos {
+			return true
+		}
+	}
+	return false
 }
 
 // c14Ctx: what a scripted reply may need to build a *well-formed* body (for the "either" kinds)
@@ -113,7 +136,7 @@ func c14Kinds() []c14Kind {
 		"discovery":     `{"issuer":"http://127.0.0.1","authorization_endpoint":"http://127.0`,
 	}
 	tok := []string{"token.code", "token.refresh"}
-	return []c14Kind{
+	ks := []c14Kind{
 		{Name: "500", Must: true, Reply: st(500, "application/json", `{"error":"server_error"}`)},
 		{Name: "400", Must: true, Reply: st(400, "application/json", `{"error":"invalid_request"}`)},
 		{Name: "401-json-error", Must: true, Reply: st(401, "application/json", `{"error":"invalid_client","error_description":"client authentication failed"}`)},
@@ -187,6 +210,44 @@ func c14Kinds() []c14Kind {
 			return &vfIdPReply{Status: 200, ContentType: "application/json", Body: c14GenuineBody(pos, cx, true)}
 		}},
 	}
+	return append(ks, c14FieldTypeKinds()...)
+}
+
+// c14FieldTypeKinds: ONE field of an otherwise genuine token response has the wrong JSON type (the all-at-once kind
+// "json-wrong-field-types" stops at the first field a decoder looks at). A non-string access_token is a missing
+// access_token (structural at both token positions), a non-string id_token is a missing id_token (structural at code
+// redemption; a refresh answer may legally lack it); the other fields are optional: both outcomes are accepted, the
+// identity must be right, and nothing may panic.
+func c14FieldTypeKinds() []c14Kind {
+	tok := []string{"token.code", "token.refresh"}
+	var out []c14Kind
+	for _, f := range []string{"access_token", "id_token", "refresh_token", "expires_in", "token_type"} {
+		vals := []struct {
+			n string
+			v interface{}
+		}{{"number", 12345}, {"float", 1.5}, {"object", map[string]interface{}{"a": 1, "b": []interface{}{"x"}}}, {"array", []interface{}{"x", 1}}, {"bool", true}, {"null", nil}}
+		if f == "expires_in" {
+			vals = append(vals[2:], struct {
+				n string
+				v interface{}
+			}{"word", "soon"}, struct {
+				n string
+				v interface{}
+			}{"negative", -5})
+		}
+		for _, tv := range vals {
+			f, v := f, tv.v
+			k := c14Kind{Name: "field-type:" + f + "=" + tv.n, Only: tok, Sampled: true, Mutate: func(r map[string]interface{}) { r[f] = v }}
+			switch f {
+			case "access_token":
+				k.Must = true
+			case "id_token":
+				k.MustAt = []string{"token.code"}
+			}
+			out = append(out, k)
+		}
+	}
+	return out
 }
 
 // wrongly typed claims
@@ -329,6 +390,7 @@ type c14World struct {
 	kidSeq int
 	sinceClean int
 	idp2   *vfIdP // extra JWT issuer (instance "extra")
+	front  *c14Front // front worlds only: every provider endpoint of the instances is reached through it
 	coldKeys []jose.JSONWebKey
 }
 
@@ -428,6 +490,12 @@ func (cw *c14World) arm(c c14Case, cx *c14Ctx) (disarm func() int) {
 	var mu sync.Mutex
 	fired := 0
 	k := c.kind
+	if k.Wire != nil {
+		if cw.front == nil {
+			panic("c14: wire kind on a world without front server")
+		}
+		return cw.front.arm(c.Pos, k.Wire)
+	}
 	cw.w.IdP.Set(func(cfg *vfIdPCfg) {
 		if k.Reply != nil {
 			cfg.Hook = func(ev *vfIdPEvent) *vfIdPReply {
@@ -621,7 +689,7 @@ func (r *c14Runner) loginCase(cw *c14World, c c14Case) {
 		run.Count("fault_position_not_reached", 1)
 	}
 	session := obs.session() || len(obs.Cookies) > 0
-	must := (c.kind != nil && c.kind.Must) || (c.typed != nil && c.typed.Must)
+	must := c.kind.must(c.Pos) || (c.typed != nil && c.typed.Must)
 	if c.Flow == "login-thin" && c.Pos == "userinfo" && strings.HasPrefix(c.Kind, "json-") {
 		// a well-formed profile answer without data while the token itself has the mandatory claims: the login may
 		// stand on the token alone (optional claims empty)
@@ -773,7 +841,7 @@ func (r *c14Runner) bearerCase(cw *c14World, c c14Case) {
 	if fired == 0 {
 		run.Count("fault_position_not_reached", 1)
 	}
-	must := (c.kind != nil && c.kind.Must) || (c.typed != nil && c.typed.Must)
+	must := c.kind.must(c.Pos) || (c.typed != nil && c.typed.Must)
 	switch {
 	case obs.Panic != "":
 		r.violation("c14:panic", "panic: "+vfTrunc(obs.Panic, 300), cw, p, c, fired, steps, obs, decoded)
@@ -945,7 +1013,7 @@ func (r *c14Runner) refreshCase(cw *c14World, c c14Case) {
 	if fired == 0 {
 		run.Count("fault_position_not_reached", 1)
 	}
-	must := (c.kind != nil && c.kind.Must) || (c.typed != nil && c.typed.Must)
+	must := c.kind.must(c.Pos) || (c.typed != nil && c.typed.Must)
 	if c.Pos == "userinfo" && strings.HasPrefix(c.Kind, "json-") {
 		// a well-formed profile answer without data next to a valid, signed refresh grant: the refresh may stand,
 		// the session then keeps its previous e-mail (providers/oidc.go documents this) — what it may never have is an empty one
@@ -1094,8 +1162,14 @@ func (r *c14Runner) legacyCase(cw *c14World, c c14Case) {
 	}
 	cx := &c14Ctx{Sub: st.sub, Email: st.email, Issuer: cw.w.IdP.Issuer, Profile: map[string]interface{}{"sub": st.sub, "email": st.email}}
 	// the validation endpoint only has a status: a 200 — whatever its body — IS a successful validation there
-	probe := c.kind.Reply(c.Pos, cx)
-	must := c.kind.Must && (probe.Reset || (probe.Status != 0 && probe.Status != 200))
+	var must bool
+	if c.kind.Wire != nil {
+		// the response never arrived completely: whatever its status line said, that is no validation
+		must = c.kind.must(c.Pos)
+	} else {
+		probe := c.kind.Reply(c.Pos, cx)
+		must = c.kind.Must && (probe.Reset || (probe.Status != 0 && probe.Status != 200))
+	}
 	steps := []string{"legacy provider (keycloak, validate-url = the rig's /userinfo), session of " + st.sub + " issued ten minutes ago (cookie-refresh 1m)"}
 	disarm := cw.arm(c, cx)
 	var obs c14Obs
@@ -1158,6 +1232,313 @@ func (r *c14Runner) legacyCase(cw *c14World, c c14Case) {
 	}
 	run.Count("clean_logins", 1)
 	if err != nil || o3.UserinfoCode != 200 || !o3.UpHit || o3.Email != sub+"@legacy.test" {
+		r.violation("c14:stuck-after-fault:login", fmt.Sprintf("after the fault was removed an ordinary login on the legacy instance fails or is not usable (%v, userinfo %d)", err, o3.UserinfoCode), cw, p, c, fired, steps, o3, nil)
+	}
+}
+
+// ---- incomplete HTTP messages (front server) ---------------------------------------------------------------------
+// The scripted replies of the rig's provider are complete HTTP messages (a truncated DOCUMENT under a consistent
+// Content-Length). A provider connection that breaks mid-body is a different thing: the status line says 200, the
+// headers announce N bytes (or a chunked stream) and the connection closes after fewer bytes / without the terminating
+// chunk. That response never arrived: nothing may be built on the part that did. The instances of the front worlds reach
+// every provider endpoint through c14Front, which forwards to the rig's provider (so the provider's state and event log
+// stay genuine) and, when armed, relays the provider's GENUINE answer as an incomplete message.
+
+type c14Wire struct {
+	Framing  string // content-length | chunked
+	Cut      string // after-1-byte | inside-first-value | after-first-value | half | last-byte-missing
+	Form     bool   // token endpoint answers application/x-www-form-urlencoded (legal for the generic OAuth2 code redemption)
+	Complete bool   // control: the message is complete
+}
+
+type c14Front struct {
+	srv    *httptest.Server
+	target string
+	client *http.Client
+	mu     sync.Mutex
+	pos    string
+	wire   *c14Wire
+	fired  int
+}
+
+func c14NewFront(target string) *c14Front {
+	f := &c14Front{target: target, client: &http.Client{Transport: &http.Transport{MaxIdleConnsPerHost: 4}, CheckRedirect: func(*http.Request, []*http.Request) error { return http.ErrUseLastResponse }}}
+	f.srv = httptest.NewServer(http.HandlerFunc(f.serve))
+	return f
+}
+
+func (f *c14Front) close() {
+	f.srv.CloseClientConnections()
+	f.srv.Close()
+	f.client.CloseIdleConnections()
+}
+
+func (f *c14Front) arm(pos string, w *c14Wire) (disarm func() int) {
+	f.mu.Lock()
+	f.pos, f.wire, f.fired = pos, w, 0
+	f.mu.Unlock()
+	return func() int {
+		f.mu.Lock()
+		defer f.mu.Unlock()
+		f.wire = nil
+		return f.fired
+	}
+}
+
+// position names: those of the rig's provider; userinfo.profile / userinfo.validate when the instance uses distinct paths
+func c14FrontPos(path string, form url.Values) []string {
+	switch {
+	case path == "/jwks":
+		return []string{"jwks"}
+	case path == "/.well-known/openid-configuration":
+		return []string{"discovery"}
+	case path == "/token":
+		if form.Get("grant_type") == "refresh_token" {
+			return []string{"token.refresh"}
+		}
+		return []string{"token.code"}
+	case strings.HasPrefix(path, "/userinfo"):
+		return []string{"userinfo", "userinfo." + strings.TrimPrefix(path, "/userinfo/")}
+	}
+	return nil
+}
+
+func c14DropConn(w http.ResponseWriter) {
+	if hj, ok := w.(http.Hijacker); ok {
+		if c, _, err := hj.Hijack(); err == nil {
+			_ = c.Close()
+		}
+	}
+}
+
+func (f *c14Front) serve(w http.ResponseWriter, r *http.Request) {
+	body, _ := io.ReadAll(r.Body)
+	form, _ := url.ParseQuery(string(body))
+	req, err := http.NewRequestWithContext(r.Context(), r.Method, f.target+r.URL.RequestURI(), bytes.NewReader(body))
+	if err != nil {
+		c14DropConn(w)
+		return
+	}
+	for _, h := range []string{"Content-Type", "Authorization", "Accept"} {
+		if v := r.Header.Get(h); v != "" {
+			req.Header.Set(h, v)
+		}
+	}
+	resp, err := f.client.Do(req)
+	if err != nil {
+		c14DropConn(w) // the provider reset / stalled until the caller gave up: the front does the same to its caller
+		return
+	}
+	rb, rerr := io.ReadAll(resp.Body)
+	_ = resp.Body.Close()
+	if rerr != nil {
+		c14DropConn(w)
+		return
+	}
+	var wire *c14Wire
+	f.mu.Lock()
+	if f.wire != nil {
+		for _, p := range c14FrontPos(r.URL.Path, form) {
+			if p == f.pos {
+				wire = f.wire
+				f.fired++
+			}
+		}
+	}
+	f.mu.Unlock()
+	ct := resp.Header.Get("Content-Type")
+	if wire != nil && wire.Form && resp.StatusCode == 200 {
+		var m map[string]interface{}
+		if json.Unmarshal(rb, &m) == nil {
+			v := url.Values{}
+			for k, x := range m {
+				v.Set(k, c14Render(x))
+			}
+			rb, ct = []byte(v.Encode()), "application/x-www-form-urlencoded" // keys sorted: access_token comes first
+		}
+	}
+	if wire == nil || wire.Complete {
+		if ct != "" {
+			w.Header().Set("Content-Type", ct)
+		}
+		w.WriteHeader(resp.StatusCode)
+		_, _ = w.Write(rb)
+		return
+	}
+	hj, ok := w.(http.Hijacker)
+	if !ok {
+		return
+	}
+	conn, _, err := hj.Hijack()
+	if err != nil {
+		return
+	}
+	defer conn.Close()
+	part := rb[:c14CutPoint(rb, wire.Cut)]
+	var b bytes.Buffer
+	fmt.Fprintf(&b, "HTTP/1.1 %d %s\r\nContent-Type: %s\r\n", resp.StatusCode, http.StatusText(resp.StatusCode), ct)
+	if wire.Framing == "chunked" {
+		b.WriteString("Transfer-Encoding: chunked\r\n\r\n")
+		first := part[:(len(part)+1)/2]
+		fmt.Fprintf(&b, "%x\r\n%s\r\n", len(first), first)
+		if rest := part[len(first):]; len(rest) > 0 {
+			fmt.Fprintf(&b, "%x\r\n%s\r\n", len(rest), rest)
+		}
+		// no terminating chunk
+	} else {
+		fmt.Fprintf(&b, "Content-Length: %d\r\n\r\n", len(rb))
+		b.Write(part)
+	}
+	_ = conn.SetWriteDeadline(time.Now().Add(30 * time.Second))
+	_, _ = conn.Write(b.Bytes())
+}
+
+// c14CutPoint: how many bytes of the body are delivered (at least 1, at most len-1)
+func c14CutPoint(b []byte, cut string) int {
+	n := len(b)
+	if n < 2 {
+		return n
+	}
+	// first value of the document: JSON `"key":"value"` / form `key=value&`
+	vs, ve := -1, -1
+	if b[0] == '{' || b[0] == '[' {
+		if i := bytes.Index(b, []byte(`":"`)); i >= 0 {
+			vs = i + 3
+			if j := bytes.IndexByte(b[vs:], '"'); j >= 0 {
+				ve = vs + j
+			}
+		}
+	} else if i := bytes.IndexByte(b, '='); i >= 0 {
+		vs = i + 1
+		ve = n
+		if j := bytes.IndexByte(b[vs:], '&'); j >= 0 {
+			ve = vs + j
+		}
+	}
+	k := n / 2
+	switch cut {
+	case "after-1-byte":
+		k = 1
+	case "inside-first-value":
+		k = n / 4
+		if ve > vs && vs > 0 {
+			k = vs + (ve-vs)/2
+		}
+	case "after-first-value":
+		k = 3 * n / 4
+		if ve > vs && vs > 0 {
+			k = ve + 3
+		}
+	case "last-byte-missing":
+		k = n - 1
+	}
+	if k < 1 {
+		k = 1
+	}
+	if k > n-1 {
+		k = n - 1
+	}
+	return k
+}
+
+func c14WireKinds() []c14Kind {
+	var out []c14Kind
+	for _, form := range []bool{false, true} {
+		for _, fr := range []string{"content-length", "chunked"} {
+			for _, cut := range []string{"after-1-byte", "inside-first-value", "after-first-value", "half", "last-byte-missing"} {
+				k := c14Kind{Name: "incomplete-message:" + fr + ":" + cut, Must: true, Wire: &c14Wire{Framing: fr, Cut: cut, Form: form}}
+				if form {
+					k.Name = "incomplete-message:form-encoded:" + fr + ":" + cut
+					k.Only = []string{"token.code"}
+				}
+				out = append(out, k)
+			}
+		}
+	}
+	// controls: the same relay, message complete (not faults)
+	out = append(out, c14Kind{Name: "complete-message:form-encoded", Only: []string{"token.code"}, Wire: &c14Wire{Form: true, Complete: true}},
+		c14Kind{Name: "complete-message:relayed", Wire: &c14Wire{Complete: true}})
+	return out
+}
+
+// legacyLoginCase: login at a provider of the generic OAuth2 kind (keycloak: code redemption by the default
+// implementation, which also accepts form-encoded answers; profile lookup; validation URL) with a fault at one call
+// position of the callback.
+func (r *c14Runner) legacyLoginCase(cw *c14World, c c14Case) {
+	run := r.run
+	p := cw.px[c.Store]
+	cw.seq++
+	sub := fmt.Sprintf("ll-w%d-%d", cw.idx, cw.seq)
+	email := sub + "@legacy.test"
+	id := vfIdentity{Sub: sub, Email: email, Profile: map[string]interface{}{"sub": sub, "email": email, "preferred_username": "pu-" + sub}}
+	cx := &c14Ctx{Sub: sub, Email: email, Issuer: cw.w.IdP.Issuer, Profile: id.Profile}
+	steps := []string{"legacy provider (keycloak; redeem / profile / validate URLs reached through the check's front server)", "GET /oauth2/start, authorize as " + sub}
+	b := vfNewBrowser("")
+	l, err := b.StartLogin(p, id, "/")
+	if err != nil {
+		run.Eval("")
+		run.Inconclusive(fmt.Sprintf("rig: legacy login could not be started: %v", err))
+		return
+	}
+	keys0 := cw.redisKeys()
+	disarm := cw.arm(c, cx)
+	cb := b.Get(p, l.CallbackTarget(p))
+	steps = append(steps, fmt.Sprintf("GET %s -> %d", l.CallbackTarget(p), cb.Code))
+	obs := cw.observe(func(q *vfReq) *vfResp { return b.Send(p, q) })
+	fired := disarm()
+	keys1 := cw.redisKeys()
+	obs.Cookies = append(c14SessionCookies(cb.SetCookies()), obs.Cookies...)
+	if cb.Panic != "" {
+		obs.Panic = cb.Panic
+	}
+	cell := ""
+	if fired > 0 {
+		cell = fmt.Sprintf("%s|%s|%s|%s", c.Flow, c.Pos, c.Kind, c.Store)
+	} else {
+		run.Count("fault_position_not_reached", 1)
+	}
+	run.Eval(cell)
+	run.Count("cases_"+c.Flow, 1)
+	session := obs.session() || len(obs.Cookies) > 0
+	// a plain OAuth2 provider has no use for an ID token: kinds that only concern the id_token field are no faults here
+	must := c.kind.must(c.Pos) && !strings.Contains(c.Kind, "id_token")
+	switch {
+	case obs.Panic != "":
+		r.violation("c14:panic", "panic: "+vfTrunc(obs.Panic, 300), cw, p, c, fired, steps, obs, nil)
+	case fired > 0 && must && session:
+		r.violation("c14:session-after-faulted-conversation:"+c.Flow, fmt.Sprintf("a session exists after the faulted login (callback status %d, session cookies %v, userinfo %d, upstream reached %v, access token handed upstream %q)", cb.Code, obs.Cookies, obs.UserinfoCode, obs.UpHit, obs.UpAT), cw, p, c, fired, steps, obs, nil)
+	case fired > 0 && must && keys1 > keys0:
+		r.violation("c14:store-write-after-faulted-conversation", fmt.Sprintf("Redis holds %d keys after the faulted login, %d before", keys1, keys0), cw, p, c, fired, steps, obs, nil)
+	case fired > 0 && must && cb.Code >= 200 && cb.Code < 300:
+		r.violation("c14:success-status-after-fault", fmt.Sprintf("callback answered %d (neither an error page nor a redirect to sign-in)", cb.Code), cw, p, c, fired, steps, obs, nil)
+	case session:
+		run.Count("sessions_after_tolerated_oddity", 1)
+		if c.kind.Wire != nil && c.kind.Wire.Complete {
+			run.Count("complete_message_controls_with_session", 1)
+		}
+		if (obs.UserinfoCode == 200 && obs.Email != email) || (obs.UpHit && obs.UpEmail != email) || (obs.UserinfoCode != 200 && !obs.UpHit) {
+			r.violation("c14:wrong-identity-after-odd-response", fmt.Sprintf("after an odd answer the session names e-mail %q / %q, expected %q", obs.Email, obs.UpEmail, email), cw, p, c, fired, steps, obs, nil)
+		}
+	default:
+		run.Count("no_session_"+map[bool]string{true: "must", false: "tolerated"}[must], 1)
+	}
+	run.SampleEvery(61, func() interface{} { return c14Witness{Case: c, Fired: fired, Steps: steps, Observed: obs} })
+	// liveness on the same instance
+	cw.seq++
+	sub2 := fmt.Sprintf("llclean-w%d-%d", cw.idx, cw.seq)
+	var o3 c14Obs
+	for try := 0; try < 3; try++ {
+		b2 := vfNewBrowser("")
+		if _, _, err = b2.Login(p, vfIdentity{Sub: sub2, Email: sub2 + "@legacy.test", Profile: map[string]interface{}{"sub": sub2, "email": sub2 + "@legacy.test"}}, "/"); err == nil {
+			o3 = cw.observe(func(q *vfReq) *vfResp { return b2.Send(p, q) })
+			if o3.UserinfoCode == 200 && o3.UpHit {
+				break
+			}
+		}
+		time.Sleep(50 * time.Millisecond)
+	}
+	run.Count("clean_logins", 1)
+	if err != nil || o3.UserinfoCode != 200 || !o3.UpHit || o3.Email != sub2+"@legacy.test" {
 		r.violation("c14:stuck-after-fault:login", fmt.Sprintf("after the fault was removed an ordinary login on the legacy instance fails or is not usable (%v, userinfo %d)", err, o3.UserinfoCode), cw, p, c, fired, steps, o3, nil)
 	}
 }
@@ -1669,6 +2050,13 @@ func (r *c14Runner) startupCase(cw *c14World, c c14Case) {
 
 func TestVerif_C14(t *testing.T) {
 	run := vfNewRun(t, "C14", "fault_enumeration")
+	if vfPvOnly() { // VERIF_PV_ONLY=1: only the provider-type sweep (development / replay aid)
+		pw := vfNewWorld(t)
+		c14ProviderTypes(run, pw)
+		pw.Close()
+		run.Finish(0, 0)
+		return
+	}
 	run.SetRule("flows {login (all claims in the token; key-set fetch forced by a new key id), login with profile lookup (e-mail only at the profile endpoint), login with a thin ID token (optional claims only at the profile endpoint), bearer token under a new key id, refresh (token / key-set / profile position), refresh with a thin ID token, wrongly typed claims also in bearer tokens of an extra JWT issuer, " +
 		"refresh with an expired old ID token (re-validation), re-validation of a stale session at the validation URL of a provider without refresh support (all reply kinds + a sweep of ~65 status / redirect / informational answers, also at the login callback: only a final 200 validates), re-validation of an unrefreshable OIDC session on an instance that has to fetch the key set first, start-up discovery} x every identity-provider call position x response kind (structural faults, tolerated oddities, wrongly typed claims); " +
 		"each case is followed by a clean login on the same instance. cell = (flow, position, kind, instance); non-trivial = the proxy actually made the call that was faulted")
@@ -1723,6 +2111,9 @@ func TestVerif_C14(t *testing.T) {
 				}
 				if f.flow == "refresh-old-token-expired" && !thorough && ki%3 != int(run.Env.Seed)%3 {
 					continue
+				}
+				if k.Sampled && !thorough && ((f.flow == "login-newkid" && (ki+int(run.Env.Seed))%2 == 0) || (f.flow == "login-profile" && (ki+int(run.Env.Seed))%2 == 1)) {
+					continue // the field-type grid: code redemption is shared by two login flows, the quick tier alternates
 				}
 				stores := []string{"cookie", "redis"}
 				if !thorough {
@@ -1824,6 +2215,55 @@ func TestVerif_C14(t *testing.T) {
 			}
 		}
 	}
+	// incomplete HTTP messages: front worlds (OIDC instances and legacy instances whose provider endpoints are all reached
+	// through the check's front server); the legacy login flow also gets the field-type grid and the scripted reply kinds
+	wireKinds := c14WireKinds()
+	var frontCases, lfCases []c14Case
+	{
+		pick := func(i, pi int) bool { return thorough || (i+pi+int(run.Env.Seed))%5 < 2 }
+		nf := 0
+		add := func(list *[]c14Case, flow, pos string, k *c14Kind) {
+			stores := []string{"cookie", "redis"}
+			if !thorough {
+				stores = []string{stores[(nf+int(run.Env.Seed))%2]}
+			}
+			nf++
+			for _, st := range stores {
+				*list = append(*list, c14Case{Flow: flow, Pos: pos, Kind: k.Name, Store: st, kind: k})
+			}
+		}
+		for pi, fp := range [][2]string{{"login-newkid", "token.code"}, {"login-newkid", "jwks"}, {"login-profile", "userinfo"}, {"refresh", "token.refresh"}, {"refresh", "userinfo"}} {
+			for ki := range wireKinds {
+				k := &wireKinds[ki]
+				if k.Wire.Form || !applies(k, fp[1]) || (!k.Wire.Complete && !pick(ki, pi)) {
+					continue
+				}
+				add(&frontCases, fp[0], fp[1], k)
+			}
+		}
+		for pi, fp := range []struct {
+			flow, pos string
+			all       bool
+		}{{"legacy-login", "token.code", false}, {"legacy-login", "userinfo.profile", false}, {"legacy-login", "userinfo.validate", true}, {"legacy-revalidate", "userinfo", true}} {
+			for ki := range wireKinds {
+				k := &wireKinds[ki]
+				if !applies(k, fp.pos) || (!fp.all && !k.Wire.Form && !k.Wire.Complete && !pick(ki, pi)) {
+					continue
+				}
+				if k.Wire.Complete && fp.flow == "legacy-revalidate" {
+					continue
+				}
+				add(&lfCases, fp.flow, fp.pos, k)
+			}
+		}
+		for ki := range kinds {
+			k := &kinds[ki]
+			if k.Heavy || k.GiveUp || !applies(k, "token.code") {
+				continue
+			}
+			add(&lfCases, "legacy-login", "token.code", k)
+		}
+	}
 	rng.Shuffle(len(cases), func(a, b int) { cases[a], cases[b] = cases[b], cases[a] })
 	// the short-lived-token flow waits for expiry: run those last in each world
 	sort.SliceStable(cases, func(a, b int) bool {
@@ -1905,8 +2345,47 @@ func TestVerif_C14(t *testing.T) {
 	for _, inst := range []string{"redis", "redisB"} {
 		kw.px[inst] = kwWorld.MustProxy(append([]string{"--session-store-type=redis", "--redis-connection-url=" + kwWorld.RedisURL()}, common...)...)
 	}
+	// front worlds: OIDC instances (explicit endpoint URLs) and legacy instances behind the check's front server
+	fwWorld := vfNewWorld(t)
+	defer fwWorld.Close()
+	fw := &c14World{idx: 96, w: fwWorld, px: map[string]*vfProxy{}, stale: map[string][]*c14Stale{}, front: c14NewFront(fwWorld.IdP.Issuer)}
+	defer fw.front.close()
+	fwWorld.IdP.Set(func(c *vfIdPCfg) { c.TokenResponseMutate = fw.recordLast })
+	{
+		iss, fu := fwWorld.IdP.Issuer, fw.front.srv.URL
+		viaFront := append([]string{"--skip-oidc-discovery=true", "--oidc-jwks-url=" + fu + "/jwks", "--login-url=" + iss + "/authorize", "--redeem-url=" + fu + "/token", "--profile-url=" + fu + "/userinfo"}, common...)
+		fw.px["cookie"] = fwWorld.MustProxy(viaFront...)
+		fw.px["redis"] = fwWorld.MustProxy(append([]string{"--session-store-type=redis", "--redis-connection-url=" + fwWorld.RedisURL()}, viaFront...)...)
+	}
+	// one legacy front world per store (their case lists run next to each other)
+	lfws := map[string]*c14World{}
+	for li, store := range []string{"cookie", "redis"} {
+		lfWorld := vfNewWorld(t)
+		defer lfWorld.Close()
+		lfw := &c14World{idx: 94 + li, w: lfWorld, px: map[string]*vfProxy{}, stale: map[string][]*c14Stale{}, front: c14NewFront(lfWorld.IdP.Issuer)}
+		defer lfw.front.close()
+		lfWorld.IdP.Set(func(c *vfIdPCfg) { c.TokenResponseMutate = lfw.recordLast })
+		iss, fu := lfWorld.IdP.Issuer, lfw.front.srv.URL
+		legacy := []string{"--provider=keycloak", "--login-url=" + iss + "/authorize", "--redeem-url=" + fu + "/token", "--profile-url=" + fu + "/userinfo/profile", "--validate-url=" + fu + "/userinfo/validate",
+			"--scope=openid", "--cookie-refresh=1m", "--pass-access-token=true"}
+		if store == "redis" {
+			legacy = append([]string{"--session-store-type=redis", "--redis-connection-url=" + lfWorld.RedisURL()}, legacy...)
+		}
+		lfw.px[store] = lfWorld.MustProxy(legacy...)
+		lfws[store] = lfw
+	}
 	// phase 1: stale sessions (global clock mock; nothing else runs)
 	clock.Set(time.Now().Add(-10 * time.Minute))
+	for _, c := range lfCases {
+		if c.Flow == "legacy-revalidate" {
+			lfws[c.Store].stale[c.Store] = append(lfws[c.Store].stale[c.Store], lfws[c.Store].makeLegacyStale(c.Store))
+		}
+	}
+	for _, c := range frontCases {
+		if c.Flow == "refresh" {
+			fw.stale[c.Store] = append(fw.stale[c.Store], fw.makeStale(t, c.Store, false))
+		}
+	}
 	for _, sc := range statusCases {
 		if sc.Flow == "legacy-revalidate-status" {
 			sw.stale[sc.Store] = append(sw.stale[sc.Store], sw.makeLegacyStale(sc.Store))
@@ -1952,7 +2431,7 @@ func TestVerif_C14(t *testing.T) {
 
 	// phase 2 (the legacy world runs next to the others)
 	var lwg sync.WaitGroup
-	lwg.Add(4)
+	lwg.Add(7)
 	phase := map[string]float64{}
 	var phaseMu sync.Mutex
 	took := func(name string, t0 time.Time) {
@@ -1984,6 +2463,37 @@ func TestVerif_C14(t *testing.T) {
 			kw.w.Up.Reset()
 		}
 	}()
+	go func() {
+		defer lwg.Done()
+		defer took("front_world_oidc", time.Now())
+		for _, c := range frontCases {
+			if c.Flow == "refresh" {
+				r.refreshCase(fw, c)
+			} else {
+				r.loginCase(fw, c)
+			}
+			fw.w.Up.Reset()
+		}
+	}()
+	for _, store := range []string{"cookie", "redis"} {
+		store := store
+		go func() {
+			defer lwg.Done()
+			defer took("front_world_legacy_"+store, time.Now())
+			lfw := lfws[store]
+			for _, c := range lfCases {
+				if c.Store != store {
+					continue
+				}
+				if c.Flow == "legacy-revalidate" {
+					r.legacyCase(lfw, c)
+				} else {
+					r.legacyLoginCase(lfw, c)
+				}
+				lfw.w.Up.Reset()
+			}
+		}()
+	}
 	go func() {
 		defer lwg.Done()
 		defer took("legacy_world", time.Now())
@@ -2031,7 +2541,10 @@ func TestVerif_C14(t *testing.T) {
 	if run.Counter("clean_logins") < 50 {
 		run.Inconclusive("too few clean logins")
 	}
-	run.Extra("cases", len(cases)+len(legacyCases)+len(statusCases)+len(coldJobs))
+	run.Extra("cases", len(cases)+len(legacyCases)+len(statusCases)+len(coldJobs)+len(frontCases)+len(lfCases))
+	pw := vfNewWorld(t)
+	defer pw.Close()
+	c14ProviderTypes(run, pw) // provider-type sweep (c14_providers.go); last, because it sets the global clock mock
 	run.RaceCheck("")
 	run.Finish(int64(len(cases))/2, run.Env.Pick(120, 300))
 }
